@@ -8,7 +8,8 @@
    not vanish (SparseLUSolve.v; also stated in Properties_C16.v).  NOT proved: rounding, and that no pivot vanishes for A.
    (* FULL: forall b, residual (solve b) = 0 up to rounding, and solve_give b = solve_take b *) *)
 From Coq Require Import List ZArith Bool Reals.
-From GMGP Require Import Scalar ScalarR InterpDefs StencilDefs StencilProofs SparseLUDefs SparseLUProofs SparseLUElim SparseLUSolve.
+From GMGP Require Import Scalar ScalarR InterpDefs StencilDefs StencilProofs SparseLUDefs SparseLUProofs SparseLUElim SparseLUSolve StencilTie.
+From GMGPGen Require Import StencilGen.
 Import ListNotations.
 Local Open Scope R_scope.
 
@@ -36,5 +37,28 @@ Theorem C04_coarse_solve_inverts_the_assembled_matrix : forall (rows : list (lis
   @csr_apply Rsc rows (@lu_solve Rsc (@lu_factor Rsc rows) b) = b.
 Proof. exact lu_solve_correct. Qed.
 
+(* ---- the take assembly as translator T3 regenerates it (NODE_BUILD_SOLVER_MATRIX_TAKE, UPDATE_MATRIX_ELEMENT, the slot tables
+   of directSolverTakeCustomLU.h, getStencil and getStencilSize of matrixStencil.cpp) ---- *)
+(* for every node the macro writes only into that node's CSR row, and the (column, value) pairs it stores are, entry for
+   entry, the row of the operator the residual applies (the documented stencil, A_take_row) *)
+Theorem C04_generated_take_assembly_is_the_residual_operator :
+  forall (nr nth : Z) (h k rad : Z -> R) (arr att art det : Z -> Z -> R) (beta : Z -> R) (dirbc : bool),
+  (4 <= nr)%Z -> (2 <= nth)%Z -> forall i j, (0 <= i < nr)%Z -> (0 <= j < nth)%Z ->
+  Forall (fun w => mw_row w = (i, j)) (@gen_build_solver_matrix_take Rsc nr nth h k rad arr att art det beta dirbc i j) /\
+  map (fun w => (mw_col w, mw_val w)) (@gen_build_solver_matrix_take Rsc nr nth h k rad arr att art det beta dirbc i j)
+  = @A_take_row Rsc nr nth h k (rad 0%Z) arr att art det beta dirbc i j.
+Proof. exact gen_asm_take_is_model. Qed.
+
+(* the slots (offsets inside the CSR row) the macro uses are pairwise distinct, lie inside the row's allocation, and fill it *)
+Theorem C04_generated_take_assembly_slots :
+  forall (nr nth : Z) (h k rad : Z -> R) (arr att art det : Z -> Z -> R) (beta : Z -> R) (dirbc : bool),
+  (4 <= nr)%Z -> forall i j, (0 <= i < nr)%Z -> (0 <= j < nth)%Z ->
+  NoDup (map mw_slot (@gen_build_solver_matrix_take Rsc nr nth h k rad arr att art det beta dirbc i j)) /\
+  Forall (fun w => (0 <= mw_slot w < @gen_take_get_stencil_size nr dirbc i)%Z)
+         (@gen_build_solver_matrix_take Rsc nr nth h k rad arr att art det beta dirbc i j) /\
+  Z.of_nat (length (@gen_build_solver_matrix_take Rsc nr nth h k rad arr att art det beta dirbc i j)) = @gen_take_get_stencil_size nr dirbc i.
+Proof. exact gen_asm_take_slots. Qed.
+
 Print Assumptions C04_both_strategies_assemble_one_operator_partial.
+Print Assumptions C04_generated_take_assembly_is_the_residual_operator.
 Print Assumptions C04_coarse_solve_inverts_the_assembled_matrix.
